@@ -600,6 +600,104 @@ func caseSeq() {
 	out.Case(true, f...)
 }
 
+// ---------------------------------------------------------------- one week, many instants; two weeks in one run
+
+// caseWeeks: the expired files of one run end on the same calendar DATE at
+// different instants and in different zones (and, in a third of the cases, on
+// two dates a week apart): one report per date, built from all files of that date.
+func caseWeeks() {
+	s := genScenario()
+	ucfg := s.ucfg
+	dir, err := os.MkdirTemp(root, "w")
+	if err != nil {
+		panic(err)
+	}
+	defer os.RemoveAll(dir)
+	tdir := telemetry.NewDir(dir)
+	os.MkdirAll(tdir.LocalDir(), 0777)
+	os.MkdirAll(tdir.UploadDir(), 0777)
+	day := time.Date(2001+rnd.Intn(90), time.Month(1+rnd.Intn(12)), 8+rnd.Intn(20), 0, 0, 0, 0, time.UTC)
+	if err := tdir.SetModeAsOf("on", day.AddDate(0, 0, -100)); err != nil {
+		panic(err)
+	}
+	start := day.AddDate(0, 0, 2).Add(time.Duration(rnd.Intn(4*24*3600)) * time.Second)
+	cfgVersion := Pick(rnd, []string{"v0.1.0", "v1.2.3"})
+	two := rnd.Chance(33) && len(s.files) > 1
+	ends := []string{"T00:00:00Z", "T00:00:00Z", "T03:00:00Z", "T23:59:59Z", "T00:00:00+02:00", "T05:30:00+05:30", "T12:00:00-08:00", "T00:00:01Z", "T00:00:00-00:30"}
+	type lf struct {
+		label string
+		end   string
+		fs    fileSpec
+	}
+	realistic := rnd.Bool()
+	var all []lf
+	groups := map[string][]fileSpec{}
+	var labels []string
+	for i, fs := range s.files {
+		d := day
+		if two && (i == 1 || (i > 1 && rnd.Bool())) {
+			d = day.AddDate(0, 0, -7)
+		}
+		label := d.Format("2006-01-02")
+		if _, ok := groups[label]; !ok {
+			labels = append(labels, label)
+		}
+		groups[label] = append(groups[label], fs)
+	}
+	// place the files week by week (names as rotate1 gives them carry the begin date)
+	for _, label := range labels {
+		d, _ := time.Parse("2006-01-02", label)
+		for _, fs := range PlaceFiles(rnd, groups[label], d.AddDate(0, 0, -7), d, realistic) {
+			all = append(all, lf{label, label + Pick(rnd, ends), fs})
+		}
+	}
+	// neutral names repeat from one week to the other: keep them apart
+	seenName := map[string]bool{}
+	for i := range all {
+		for seenName[all[i].fs.Name] {
+			all[i].fs.Name = "w" + all[i].fs.Name
+		}
+		seenName[all[i].fs.Name] = true
+	}
+	sort.SliceStable(all, func(a, b int) bool { return all[a].fs.Name < all[b].fs.Name })
+	distinct := map[string]bool{}
+	f := []string{"weeks"}
+	f = append(f, WConfig(ucfg)...)
+	m := s.m
+	f = append(f, HS(cfgVersion), HS(""), U(bitsOf(XOf(m))), I(int64(len(all))))
+	for _, e := range all {
+		distinct[e.end] = true
+		data := EncodeCountFile(MetaString(e.fs.Begin.Format(time.RFC3339), e.end, e.fs.ID, e.fs.Omit), e.fs.Counts)
+		name := filepath.Join(tdir.LocalDir(), e.fs.Name)
+		if err := os.WriteFile(name, data, 0666); err != nil {
+			panic(err)
+		}
+		pf, err := counter.Parse(name, data)
+		if err != nil {
+			pf = &counter.File{}
+		}
+		f = append(f, HS(e.label))
+		f = append(f, WFileRef(e.fs, pf.Meta, pf.Count, err)...)
+	}
+	if len(distinct) > 1 {
+		out.Note("weeks-several-end-instants")
+	}
+	out.Note(fmt.Sprintf("weeks-labels-%d", len(labels)))
+	// every report of this run draws the same X (the order in which the weeks are built is not specified)
+	crand.Reader = &CycleReader{Data: RandBytesFor(rnd, m)}
+	u := upload.VerifNewUploader(dir, "http://127.0.0.1:1", start, ucfg, cfgVersion, nil)
+	if _, err := u.Reports(); err != nil {
+		panic(err)
+	}
+	sort.Strings(labels)
+	f = append(f, observe(tdir, labels[0])[0], I(int64(len(labels))))
+	for _, label := range labels {
+		f = append(f, HS(label))
+		f = append(f, observe(tdir, label)[1:]...)
+	}
+	out.Case(true, f...)
+}
+
 // ---------------------------------------------------------------- upload.Run itself, twice in one process
 
 // caseRuns: this process calls the real upload.Run (config download by the go
@@ -788,6 +886,8 @@ func main() {
 				caseReport(false, witnessBothKinds(0, 1))
 			case i%50 == 19:
 				caseRuns()
+			case i%20 == 8 && i > 8:
+				caseWeeks()
 			case i%10 == 9:
 				caseSeq()
 			case i%10 == 4:
